@@ -407,6 +407,53 @@ def numpy_real(req):
     raise ValueError(req)
 
 
+def remark_probes():
+    """observations on the real code that are OUTSIDE the statement of C15 (recorded in the evidence, never a verdict)"""
+    import contextlib, struct, tempfile, shutil
+    from quantum_gates._utility.device_parameters import DeviceParameters
+    out = {}
+    d = tempfile.mkdtemp(prefix="c15r_") + "/"
+    try:
+        def mk(layout, **kw):
+            L, m = len(layout), max(layout) + 1
+            dp = DeviceParameters(layout)
+            dp.T1, dp.T2, dp.p, dp.rout, dp.tm = (np.full(L, 0.5) for _ in range(5))
+            dp.p_int, dp.t_int, dp.dt, dp.metadata = np.full((m, m), 0.25), np.full((m, m), 0.125), np.array([1e-9]), {"k": 1}
+            for k, v in kw.items():
+                setattr(dp, k, v)
+            return dp
+        def rt(dp, fmt):
+            with contextlib.redirect_stdout(io.StringIO()):
+                getattr(dp, "save_to_" + fmt)(d)
+            b = DeviceParameters(dp.qubits_layout)
+            getattr(b, "load_from_" + fmt)(d)
+            return b
+        neg_nan = struct.unpack("<d", struct.pack("<Q", 0xFFF8000000000000))[0]
+        for fmt in ("texts", "json"):
+            a = mk([0, 1], T1=np.array([neg_nan, 1.0]))
+            b = rt(a, fmt)
+            out[f"negative_nan_bits_preserved_{fmt}"] = bool(a.T1.tobytes() == b.T1.tobytes())
+            a = mk([0, 1], T1=[100, 200])
+            b = rt(a, fmt)
+            out[f"int_valued_list_T1_eq_{fmt}"] = bool(a == b)
+            a = mk([0, 0])
+            b = rt(a, fmt)
+            out[f"repeated_label_layout_p_int_shape_{fmt}"] = list(np.asarray(b.p_int).shape)
+            a = mk([0, 1], metadata={"z": 1 + 2j})
+            b = rt(a, fmt)
+            out[f"complex_metadata_dict_equal_{fmt}"] = bool(a.metadata == b.metadata)
+            out[f"complex_metadata_objects_equal_{fmt}"] = bool(a == b)
+        try:
+            import copy
+            copy.deepcopy(mk([0]))
+            out["deepcopy_works"] = True
+        except Exception as e:                              # noqa
+            out["deepcopy_works"] = f"{type(e).__name__}: {e}"
+    finally:
+        shutil.rmtree(d, ignore_errors=True)
+    return out
+
+
 # ---- shrinking, signatures ----------------------------------------------------------------------------------------------
 def sig_of(f):
     """canonical identification of a failure (matched against known_findings.json): kind of failure, storage format, one-qubit
@@ -531,6 +578,7 @@ def main(ctx):
         "property's layouts, model and code agree (family malformed-repeated-label)",
         "save_to_texts that raises on a 0-d / 3-d attribute leaves the earlier files and an empty file behind (modelled, agrees)"]
 
+    ctx.notes["remark_probes"] = remark_probes()
     # ---- decide
     reported = {}
     for i, fl in enumerate(fails_by_session):
@@ -543,9 +591,12 @@ def main(ctx):
         small = shrink(sessions[i], sig)
         ans, fl2 = W.run_real(small)
         f2 = next((x for x in fl2 if sig_of(x) == sig), f)
+        same = [(j, x) for j, fl in enumerate(fails_by_session) for x in fl if sig_of(x) == sig]
+        other = next((describe(sessions[j], x) for j, x in same if x["detail"] != f2["detail"]), None)
         ctx.violation(sig, {"kind": "session", "session": small, "failure": f2, "observed": ans,
-                            "expected_by_model": drv.batch([W.model_request(small)])[0]},
-                      "DeviceParameters save/load: " + describe(small, f2))
+                            "expected_by_model": drv.batch([W.model_request(small)])[0],
+                            "same_failure_in_sessions": len({j for j, _ in same}), "another_instance": other},
+                      "DeviceParameters save/load: " + describe(small, f2) + (f" [also: {other}]" if other else ""))
     if unexplained or mism_np:
         if mism_np:
             j = mism_np[0]
